@@ -243,32 +243,25 @@ def c_pop_default():
     return f"Definition gen_ms_pop_default : Z := {'(%d)' % v if v < 0 else v}."
 
 
-INDEX_SRC = """def index(self, value, start=0, stop=None):
-    if start is not None and start < 0:
-        start = max(len(self) + start, 0)
-    if stop is not None and stop < 0:
-        stop += len(self)
-    i = start
-    while stop is None or i < stop:
-        try:
-            v = self[i]
-        except IndexError:
-            break
-        if v is value or v == value:
-            return i
-        i += 1
-    raise ValueError"""
+INDEX_NORM = [   # Sequence.index modulo local names (pyexpr.normalized_statements)
+    "if start is not None and start < 0:\n    start = max(len(self) + start, 0)",
+    "if stop is not None and stop < 0:\n    stop += len(self)",
+    "v0 = start",
+    "while stop is None or v0 < stop:\n    try:\n        v1 = self[v0]\n    except IndexError:\n        break\n"
+    "    if v1 is value or v1 == value:\n        return v0\n    v0 += 1",
+    "raise ValueError",
+]
 
 
 def c_glue():
     """Sequence.index (a while loop with try/break) is transcribed by hand as index_of: checked verbatim; and the six
     mutators must not be re-defined between MutableSequence and SignalingList's other bases"""
     fn = _func("Sequence", "index")
-    body = [s for s in fn.body if not (isinstance(s, ast.Expr) and isinstance(s.value, ast.Constant) and isinstance(s.value.value, str))]
-    fn2 = ast.FunctionDef(name=fn.name, args=fn.args, body=body, decorator_list=[], returns=None, type_comment=None, type_params=[])
-    got = ast.unparse(ast.fix_missing_locations(fn2))
-    if got != INDEX_SRC:
-        raise T.Broken("Sequence.index changed: " + got[:200])
+    if [x.arg for x in fn.args.args] != ["self", "value", "start", "stop"]:
+        raise T.Broken("Sequence.index: parameters changed")
+    got = pyexpr.normalized_statements(fn)
+    if got != INDEX_NORM:
+        raise T.Broken("Sequence.index changed: " + next((g for g, w in zip(got, INDEX_NORM) if g != w), str(len(got)))[:200])
     ms = collections.abc.MutableSequence
     for m in ("pop", "remove", "extend", "__iadd__", "reverse", "clear"):
         if m not in vars(ms):
